@@ -104,6 +104,7 @@ def gen_SO3(tier, seed):
         out.append(('rod(%s,2.5)' % n, ref.rodrigues(v, 2.5)))
     out.append(('near-pi', ref.mp_rot((1, 2, 3), PI - 1e-9)))
     out.append(('near-0', ref.mp_rot((-2, 1, 0.5), 1e-9)))
+    out.append(('pi-1e-12', ref.mp_rot((-2, 1, 0.5), PI - 1e-12)))     # inside the band where log / r2q change arm
     if tier != 'quick':
         out.append(('Rx(pi/2)', ref.rotx(PI / 2)))
         out.append(('Rz(pi)', ref.rotz(PI)))
@@ -114,7 +115,7 @@ def gen_SO3(tier, seed):
 
 def gen_SO2(tier, seed):
     out = [('I', np.eye(2)), ('R(0.3)', ref.rot2(0.3)), ('R(-1.9)', ref.rot2(-1.9)), ('R(pi-1e-9)', ref.rot2(PI - 1e-9)),
-           ('R(1e-9)', ref.rot2(1e-9)), ('R(pi/2)', ref.rot2(PI / 2))]
+           ('R(1e-9)', ref.rot2(1e-9)), ('R(pi/2)', ref.rot2(PI / 2)), ('R(3e-6)', ref.rot2(3e-6))]
     for n, v in pick(G_ANGLES_SMALL, tier, seed, 2):
         out.append(('R(%s)' % n, ref.rot2(v)))
     if tier != 'quick':
@@ -147,7 +148,8 @@ def gen_SE(dim, tier, seed):
     """rigid motions: rotations x translations, thinned by name to a generator set (not the full product)"""
     rots = gen_SO3(tier, seed) if dim == 3 else gen_SO2(tier, seed)
     trs = translations(dim, tier, seed)
-    forced = ('I|t=0', 'I|t=g', 'near-pi|t=1e6*d', 'near-0|t=1e3*d', 'R(pi-1e-9)|t=1e6*d', 'R(1e-9)|t=1e3*d')
+    forced = ('I|t=0', 'I|t=g', 'near-pi|t=1e6*d', 'near-0|t=1e3*d', 'pi-1e-12|t=g', 'R(pi-1e-9)|t=1e6*d', 'R(1e-9)|t=1e3*d',
+              'R(3e-6)|t=g', 'R(3e-6)|t=1e3*d')
     out = []
     for rn, R in rots:
         for tn, t in trs:
@@ -155,3 +157,21 @@ def gen_SE(dim, tier, seed):
             if name in forced or thin(name, tier):
                 out.append((name, ref.rt(R, t)))
     return out
+
+
+SPECIAL = ('near-pi', 'near-0', 'pi-1e-12', '3e-6', 'pi-1e-9', '1e-9', '-1e-6')
+
+
+def subset(G, n, nspecial=5):
+    """a sub-list of n generators that keeps up to nspecial of the landmark elements (near 0 / near pi / micro-radian),
+    one per landmark kind first, and fills up with the others in order; deterministic, order preserving"""
+    spec, seenk = [], set()
+    for x in G:
+        for k in SPECIAL:
+            if k in x[0] and k not in seenk and len(spec) < nspecial:
+                spec.append(x)
+                seenk.add(k)
+                break
+    rest = [x for x in G if x not in spec][:max(0, n - len(spec))]
+    keep = set(id(x) for x in spec + rest)
+    return [x for x in G if id(x) in keep]
